@@ -218,6 +218,9 @@ def unescape_beh(line):
 # --------------------------------------------------------------------------------------
 # attribution of a divergence to the properties that own the differing observable (DESIGN A.4)
 # --------------------------------------------------------------------------------------
+# in these families every behaviour is about one property's scenario (e.g. what a failed start leaves behind), so that
+# property owns every divergence found there in addition to the owner of the differing observable
+FAMILY_EXTRA_OWNERS = {"restart": {"C04"}}
 MON_OWNER = {1: {"C05"}, 2: {"C05"}, 3: {"C06"}, 4: {"C06", "C01"}, 5: {"C05"}, 6: {"C14", "C04"}, 7: {"C14", "C05"},
              8: {"C14"}, 9: {"C06"}, 10: {"C01"}}
 EINVAL, EPIPE, ETIMEDOUT, EWOULDBLOCK = -22, -32, -110, -11
@@ -407,6 +410,15 @@ def fam_life(tier, outdir):
     cfg = os.path.join(outdir, "MC_Life.cfg")
     write_cfg(cfg, "Spec", consts, ["TypeOK", "LifeChild", "Conservation"], props=["LifeOrder"], export_stride=2 if tier == "quick" else 1)
     return run_tlc_export("life", "MC_Life", cfg, outdir, tier, asan_stride=4 if tier == "quick" else 2)
+
+
+def fam_restart(tier, outdir):
+    consts = {"Handles": "{1}", "MaxTime": 3, "MaxCalls": 5, "PipeCap": 4, "MaxOut": 0, "ExitCodes": "{3}", "TermDelay": 1}
+    if tier == "thorough":
+        consts.update({"MaxCalls": 6, "MaxTime": 4})
+    cfg = os.path.join(outdir, "MC_Restart.cfg")
+    write_cfg(cfg, "Spec", consts, ["TypeOK", "LifeChild"], export_stride=1)
+    return run_tlc_export("restart", "MC_Restart", cfg, outdir, tier, asan_stride=8)
 
 
 def fam_poll(tier, outdir):
@@ -810,7 +822,7 @@ def run_tlc_plain(name, module, cfgpath, outdir, timeout=1500, workers=8):
     return st
 
 
-FAMILIES = {"threads": fam_threads, "conc": fam_conc, "wincmd": fam_wincmd, "wrapper": fam_wrapper, "faults": fam_faults, "env": lambda t, o: fam_launch("env", t, o), "wiring": lambda t, o: fam_launch("wiring", t, o), "options": lambda t, o: fam_launch("options", t, o),
+FAMILIES = {"restart": fam_restart, "threads": fam_threads, "conc": fam_conc, "wincmd": fam_wincmd, "wrapper": fam_wrapper, "faults": fam_faults, "env": lambda t, o: fam_launch("env", t, o), "wiring": lambda t, o: fam_launch("wiring", t, o), "options": lambda t, o: fam_launch("options", t, o),
             "destroy": fam_destroy, "status": fam_status, "run": fam_run, "stop": fam_stop, "life": fam_life, "poll": fam_poll, "stream": fam_stream, "drain": fam_drain}
 
 PROPS = {
@@ -822,8 +834,8 @@ PROPS = {
     "C10": {"families": ["wiring"], "title": "each standard stream is connected exactly where the options say"},
     "C11": {"families": ["wiring"], "title": "nothing else is inherited"},
     "C13": {"families": ["options"], "title": "options rejected up front, accepted as documented"},
-    "C04": {"families": ["faults", "env"], "title": "start is all-or-nothing and reports the real cause"},
-    "C05": {"families": ["faults", "life"], "title": "no leak, no foreign or double close"},
+    "C04": {"families": ["faults", "env", "wiring", "restart"], "title": "start is all-or-nothing and reports the real cause"},
+    "C05": {"families": ["faults", "wiring", "life"], "title": "no leak, no foreign or double close"},
     "C18": {"families": ["wincmd"], "title": "Windows command line and environment block",
             "level_text": "The real Windows string code (process.windows.c, utf.windows.c, compiled unchanged against a stub windows.h, under ASan+UBSan) is run on an exhaustive bounded enumeration of argument vectors and environments; every record of what the stubbed CreateProcessW received is validated by TLC against spec/WinCmdLine.tla (Split(cmdline) = argv by the documented parsing rules, exact buffer size, environment block layout).",
             "level_note": "Trusted: TLC, the transcription of the documented Windows parsing rules (Split, self-checked on documented examples), the stub windows.h (MultiByteToWideChar maps bytes 1:1: ASCII alphabet only). Windows run-time behaviour is out of reach (DESIGN 8).",
@@ -876,7 +888,7 @@ def conclude(prop, tier, results, known, outdir, t0):
         if res["tlc"].get("invariant_violated"):
             model_viol.append((res["family"], res["tlc"]["invariant_violated"]))
         for d in res["bad"]:
-            own = owners(d)
+            own = owners(d) | FAMILY_EXTRA_OWNERS.get(res["family"], set())
             if "INFRA" in own:
                 infra.append(d)
                 continue
